@@ -18,12 +18,28 @@ def scenario(cfg):
     loop = asyncio.new_event_loop()
     state = {"running": set(), "started": 0, "unwound": 0}
 
+    box = {}
+    events = []  # ("ask", n) / ("tell",) calls that reach the learner
+
+    def request_cancel():
+        if state.get("cancel_at") is None and "runner" in box and not box["runner"].task.done():
+            state["cancel_at"] = len(events)
+            box["runner"].cancel()
+
     async def f(x):
         state["running"].add(x)
         state["started"] += 1
+        k = cfg.get("cancel_in_eval")
+        if k is not None and cfg.get("cancel_mode") == "done_callback" and state["started"] == k + 1:
+            # registered after the runner's own wait registered its completion callback: the cancellation arrives in the very
+            # loop iteration in which this evaluation's completion wakes the runner up
+            asyncio.current_task().add_done_callback(lambda _t: request_cancel())
         try:
             for _ in range(cfg["work"]):
                 await asyncio.sleep(0)
+            if k is not None and cfg.get("cancel_mode") == "in_function" and state.get("finished", 0) == k:
+                request_cancel()  # the evaluation cancels the runner as its last action: cancel and completion coincide
+            state["finished"] = state.get("finished", 0) + 1
             return float(x) * 0.5
         finally:
             try:
@@ -35,6 +51,17 @@ def scenario(cfg):
 
     # (SequenceLearner wraps its function, so a coroutine function is not recognised as one there: Learner1D only)
     learner = adaptive.Learner1D(f, bounds=(-1.0, 1.0))
+    _ask, _tell = learner.ask, learner.tell
+
+    def ask(n, tell_pending=True):
+        events.append(("ask", n))
+        return _ask(n, tell_pending)
+
+    def tell(x, y):
+        events.append(("tell",))
+        return _tell(x, y)
+
+    learner.ask, learner.tell = ask, tell
     out = {"cfg": cfg, "fail": None}
 
     async def main():
@@ -45,6 +72,7 @@ def scenario(cfg):
             runner = adaptive.AsyncRunner(learner, goal=lambda l: l.npoints >= cfg["stop"], ntasks=cfg["ntasks"], ioloop=loop)
         finally:
             ar._default_executor = saved
+        box["runner"] = runner
         if cfg["cancel_after"] is not None:
             for _ in range(cfg["cancel_after"]):
                 await asyncio.sleep(0)
@@ -58,6 +86,16 @@ def scenario(cfg):
         still = sorted(state["running"])
         out["status"] = runner.status()
         out["started"], out["unwound"], out["npoints"] = state["started"], state["unwound"], learner.npoints
+        if state.get("cancel_at") is not None:
+            # a cancellation requested by an evaluation in the loop iteration in which it completes
+            out["coincident_cancel"] = True
+            later = [e for e in events[state["cancel_at"]:] if e[0] == "ask"]
+            if runner.status() != "cancelled" or later:
+                out["fail"] = ("cancel_stops_runner",
+                               f"runner.cancel() was called by evaluation no. {cfg['cancel_in_eval']} as it completed "
+                               f"({cfg.get('cancel_mode')}, ntasks={cfg['ntasks']}): status() is {runner.status()!r} and the learner "
+                               f"was asked {len(later)} more time(s) afterwards (npoints {learner.npoints}, goal {cfg['stop']})")
+                return
         if still and out.get("goal_at_cancel"):
             # the cancellation arrived while the runner was already waiting for its cancelled evaluations to unwind (goal
             # reached): that wait is itself cancelled; the evaluations HAVE been cancelled (the clause says no more)
@@ -66,9 +104,9 @@ def scenario(cfg):
             out["fail"] = ("shutdown_leaves_evaluations_running",
                            f"AsyncRunner(status {runner.status()}, ntasks={cfg['ntasks']}, coroutine function that needs "
                            f"{cfg['cleanup']} loop iteration(s) to unwind) has stopped "
-                           f"({'cancelled' if cfg['cancel_after'] is not None else 'goal reached'}) while {len(still)} evaluation(s) "
+                           f"({'cancelled' if cfg['cancel_after'] is not None or state.get('cancel_at') is not None else 'goal reached'}) while {len(still)} evaluation(s) "
                            f"it started are still running: {still[:4]}")
-        elif cfg["cancel_after"] is None and not (learner.npoints >= cfg["stop"]):
+        elif cfg["cancel_after"] is None and state.get("cancel_at") is None and not (learner.npoints >= cfg["stop"]):
             out["fail"] = ("goal_holds_at_exit", f"runner finished with npoints={learner.npoints} < goal {cfg['stop']}")
         elif learner.pending_points and runner.status() != "failed":
             out["fail"] = ("pending_discarded_at_exit", f"pending points left after the runner stopped: {sorted(learner.pending_points)[:4]}")
@@ -98,4 +136,7 @@ def gen(rng, n):
         cfgs.append({"ntasks": rng.choice([1, 2, 3, 5]), "work": rng.choice([0, 1, 2, 4]), "cleanup": rng.choice([0, 1, 3]),
                      "stop": rng.choice([3, 7, 12]), "cancel_after": rng.choice([0, 1, 3, 8, 20]) if cancel else None,
                      "learner": "l1d"})
+        if not cancel and rng.random() < 0.5:
+            # the cancellation coincides with the completion of evaluation no. k
+            cfgs[-1].update(cancel_in_eval=rng.choice([0, 1, 2, 4, 6]), cancel_mode=rng.choice(["in_function", "done_callback"]))
     return cfgs
